@@ -1,0 +1,26 @@
+//go:build verif
+
+package mdicons
+
+import (
+	"fmt"
+	"sort"
+)
+
+// VerifGlobals serialises every package-level variable of this package. It
+// exists only under the verif build tag and is used by external monitors to
+// observe that no operation writes to package-level data.
+func VerifGlobals() []byte {
+	var s []string
+	for k, v := range skippedPaths {
+		s = append(s, "p:"+k+"="+v)
+	}
+	for k, v := range skippedFiles {
+		s = append(s, fmt.Sprintf("f:%q=%v", k, v))
+	}
+	for k, v := range acronyms {
+		s = append(s, "a:"+k+"="+v)
+	}
+	sort.Strings(s)
+	return []byte(fmt.Sprintf("%q|%v", s, ErrSkip))
+}
